@@ -150,7 +150,7 @@ def expected_obligations():
 def main(pid, tier, seed, cfg):
     run = Run(pid, cfg, tier, seed)
     kf = [k for k in known_findings() if k.get("property") == pid]
-    replay_dir = os.path.join(ROOT, "replay", pid)
+    replay_dir = os.path.join(os.environ.get("VERIF_REPLAY_DIR") or os.path.join(ROOT, "replay"), pid)
     os.makedirs(replay_dir, exist_ok=True)
     n_replay = [0]
 
@@ -382,7 +382,7 @@ def main(pid, tier, seed, cfg):
     ev = dict(property_id=pid, tier=tier, seed=seed, level=level, coverage=coverage,
               assumptions=trusted + cfg.get("notes", []), wall_s=round(time.time() - run.t0, 2),
               violations=len(run.violations), notes=run.notes, checker_problems=run.broken)
-    write_json(os.path.join(ROOT, "evidence", "%s.json" % pid), ev)
+    write_json(os.path.join(os.environ.get("VERIF_EVIDENCE_DIR") or os.path.join(ROOT, "evidence"), "%s.json" % pid), ev)
     _validate(ev)
     if run.violations:
         return 1
